@@ -39,7 +39,7 @@ type PtrV struct {
 	Kind PtrKind
 	Ref  *Term      // PObj, PBox, PLeaf: reference (0 = nil for PObj/PBox)
 	T    types.Type // pointee type
-	Key  string     // PLeaf: heap key prefix
+	Key  string     // PLeaf: heap key prefix; PElem: key override (leaf of a struct element); PElemObj: key prefix
 	Arr  *Term      // PElem, PArr
 	Idx  *Term      // PElem
 	Cell *Cell      // PCell
@@ -55,6 +55,7 @@ const (
 	PElem                // element Idx of backing array Arr (non-struct element)
 	PArr                 // whole backing array Arr viewed as *[N]T
 	PCell                // local variable (possibly a sub-part)
+	PElemObj             // struct (or nested sub-struct) inside element Idx of backing array Arr; Key = heap key prefix
 )
 
 type Sel struct {
